@@ -67,7 +67,7 @@ var propConfigs = map[string]propConfig{
 	"C16": {ID: "C16", Level: "proof",
 		Explain: "Sequential core of reply routing in the client: a reply is offered only on the channel registered under the request id the reply itself carries (runReceiveFromRouter call-site universal + runSignalReply send-site universal), and a waiter gets a real message or an error; on context cancellation a CANCEL naming this call is sent to the router.",
 		Assume: []string{"schedule-dependent parts (progress handler never after return, replies coinciding with timeouts, handler serialisation) are not decided", "context.Context.Err() is non-nil once Done() has fired (listed assumption)"}},
-	"C07": {ID: "C07", Level: "other", Structural: []string{"nonblocking"},
+	"C07": {ID: "C07", Level: "other", Structural: []string{"nonblocking", "no-blocking-peer-send"},
 		Explain: "Effect contract 'nonblocking' on every function that runs on the broker or dealer goroutine (sync*, trySend, prepareEvent, meta-event builders): checked on the SSA and call graph - no blocking send, receive or select on any path including in-place callees, so every send to a peer from there is a select with default; the in-process router-to-client queue is created with exactly the configured capacity (LinkedPeersQSize postcondition).",
 		Assume: []string{"deadlock freedom and 'eventually processed' are not decided: wait-for cycles between goroutines are not a per-function property", "the rawsocket/websocket peers' queue creation is not under contract (only the in-process peer is)"}},
 	"C09": {ID: "C09", Level: "proof",
